@@ -317,3 +317,31 @@ func funcName(f interface{}) string {
 	}
 	return n
 }
+
+// RandomSentence expands START by a random derivation: random alternatives down to maxDepth, minimal sentences below.
+// pick(n) must return a number in [0,n).
+func (g *G) RandomSentence(pick func(int) int, maxDepth int) []int {
+	min := g.minSentences()
+	var out []int
+	var rec func(s string, d int)
+	rec = func(s string, d int) {
+		alts := g.Rules[s]
+		if len(alts) == 0 {
+			return
+		}
+		if d >= maxDepth || len(out) > 400 {
+			out = append(out, min[s]...)
+			return
+		}
+		a := alts[pick(len(alts))]
+		for _, e := range a.Elems {
+			if e.IsSym {
+				rec(e.Sym, d+1)
+			} else {
+				out = append(out, e.Tok)
+			}
+		}
+	}
+	rec("START", 0)
+	return out
+}
